@@ -10,7 +10,7 @@ def gen_config(rnd, S, opts=None):
     opts = opts or {}
     sim = {"volume_limit": rnd.random() < 0.7, "volume_percent": rnd.choice([0.25, 0.25, 0.3, 1.0, 0.1]),
            "price_limit": rnd.random() < 0.8, "inactive_limit": rnd.random() < 0.8,
-           "slippage_model": rnd.choice(["PriceRatioSlippage", "PriceRatioSlippage", "TickSizeSlippage"]),
+           "slippage_model": rnd.choice(["PriceRatioSlippage"] * 8 + ["TickSizeSlippage"] * 4 + ["LimitPriceSlippage"]),
            "slippage": rnd.choice([0, 0, 0, 0.002, 1.0])}
     if sim["slippage_model"] == "PriceRatioSlippage" and sim["slippage"] >= 1:
         sim["slippage"] = 0.01
@@ -143,6 +143,30 @@ def run_trading(rnd, S, cfgk, intensity=1.0, script=None, analyser=False):
                         o2 = api.order_shares(oid, -max(100, (held // 200) * 100), price_or_style=LimitOrder(round(price * 1.03, 2)))
                         o3 = api.order_shares(oid, -srnd.choice([held, max(100, (held // 100) * 100), held + 100]))
                         res = [o for o in (o1, o2, o3) if o is not None]
+                elif r < 0.09 and futs and "FUTURE" in before:
+                    # directed combination on a futures position: rest a limit close, then close (about) everything / cancel twice
+                    oid = srnd.choice(futs)
+                    price = env.get_last_price(oid)
+                    hh = next((h for h in before["FUTURE"]["holdings"] if h["id"] == oid), None)
+                    if price == price and price > 0:
+                        call.update(api="combo_future_close", args=(oid,))
+                        res = []
+                        side = srnd.choice(["long", "short"])
+                        qty = hh[side]["qty"] if hh else 0
+                        if qty <= 0:
+                            res += api.buy_open(oid, srnd.choice([2, 3, 5])) if side == "long" else api.sell_open(oid, srnd.choice([2, 3, 5]))
+                        else:
+                            close_fn = api.sell_close if side == "long" else api.buy_close
+                            far = float(round(price * (1.02 if side == "long" else 0.98)))
+                            r1 = close_fn(oid, max(1, qty // 2), price_or_style=LimitOrder(far))
+                            r2 = close_fn(oid, qty)
+                            res = [r1, r2]
+                            oo = api.get_open_orders()
+                            if oo and srnd.random() < 0.5:
+                                o = srnd.choice(oo)
+                                api.cancel_order(o)
+                                if srnd.random() < 0.5:
+                                    api.cancel_order(o)           # cancelling twice must change nothing
                 elif r < 0.45 and stocks:
                     oid = srnd.choice(stocks)
                     price = env.get_last_price(oid)
@@ -232,7 +256,19 @@ def run_trading(rnd, S, cfgk, intensity=1.0, script=None, analyser=False):
                 call["exc"] = (type(ex).__name__, str(ex)[:200])
             if call["api"] is None:
                 continue
-            olist = [res] if (res is not None and not isinstance(res, list)) else (res or [])
+            def flat(x):
+                if isinstance(x, (list, tuple)):
+                    for y in x:
+                        for z in flat(y):
+                            yield z
+                else:
+                    yield x
+            if isinstance(res, (list, tuple)) and any(isinstance(y, (list, tuple)) for y in res):
+                tr.stats["api_returned_nested_list:" + str(call["api"])] += 1
+            olist = list(flat(res)) if res is not None else []
+            if any(o is None for o in olist):
+                tr.stats["api_returned_list_with_None"] += 1
+            olist = [o for o in olist if o is not None]
             for o in olist:
                 tr.orders[o.order_id] = o
             call["orders"] = [order_snap(o) for o in olist]
